@@ -175,6 +175,36 @@ pub fn oneway(cex: &Value) -> Result<String, String> {
       }
     }
   }
+  // several writes in one update, in every order of changing / unchanged writes: all of them are stored
+  let mut log: Vec<String> = Vec::new();
+  for purpose in [StatusPurpose::Revocation, StatusPurpose::Suspension] {
+    for pattern in 0..8u8 {
+      let mut c = sl_credential(purpose);
+      let _ = c.update(|l| l.set_entry(11, true));
+      // three writes; bit k of `pattern` says whether write k changes something (sets a fresh entry) or repeats a value already there
+      let writes: Vec<(usize, bool)> = (0..3).map(|k| if pattern >> k & 1 == 1 { (20 + k as usize, true) } else { (11, true) }).collect();
+      let w2 = writes.clone();
+      let res = c.update(move |l| {
+        for (i, v) in &w2 {
+          l.set_entry(*i, *v)?;
+        }
+        Ok(())
+      });
+      if res.is_err() {
+        log.push(format!("{purpose:?}: update with the writes {writes:?} failed"));
+        continue;
+      }
+      for (i, v) in &writes {
+        let set = matches!(c.entry(*i), Ok(s) if s != identity_credential::revocation::status_list_2021::CredentialStatus::Valid);
+        if set != *v {
+          log.push(format!("{purpose:?}: after one update with the writes {writes:?} entry {i} reads {}", if set { "set" } else { "clear" }));
+        }
+      }
+    }
+  }
+  if !log.is_empty() {
+    return Ok(log.join("; "));
+  }
   // a refused un-revocation must leave the list untouched even if the update closure swallows the error (best-effort batch)
   let r = no_panic(move || {
     let mut log = Vec::new();
@@ -261,8 +291,16 @@ pub fn status_eval(_cex: &Value) -> Result<String, String> {
       for entry_purpose in [StatusPurpose::Revocation, StatusPurpose::Suspension] {
         for (idx, set) in [(420usize, true), (421, false)] {
           for same_list in [true, false] {
+          for own_id in 0..3u8 {
             let url = if same_list { list_id.clone() } else { Url::parse("http://example.com/other-list").unwrap() };
-            let entry = StatusList2021Entry::new(url, entry_purpose, idx, None);
+            // the entry's own id is not what names the list: absent, the spec's "<list>#<index>" shape, or - for an entry of another
+            // list - this list's URL
+            let id = match own_id {
+              0 => None,
+              1 => Some(Url::parse(format!("{url}#{idx}")).unwrap()),
+              _ => Some(list_id.clone()),
+            };
+            let entry = StatusList2021Entry::new(url, entry_purpose, idx, id);
             let cred: Credential<Object> = CredentialBuilder::default()
               .issuer(Url::parse("http://example.com/i").unwrap())
               .subject(Subject::with_id(Url::parse("http://example.com/s").unwrap()))
@@ -286,8 +324,9 @@ pub fn status_eval(_cex: &Value) -> Result<String, String> {
               Err(_) => "invalid",
             };
             if have != want {
-              log.push(format!("list {list_purpose:?}, entry {entry_purpose:?} index {idx} (set={set}), same list {same_list}: reported {have}, expected {want}"));
+              log.push(format!("list {list_purpose:?}, entry {entry_purpose:?} index {idx} (set={set}), same list {same_list}, own id form {own_id}: reported {have}, expected {want}"));
             }
+          }
           }
         }
       }
